@@ -112,3 +112,84 @@ def anchored(pattern: str):
     s = bool(tree) and tree[0][0] is sre_c.AT and tree[0][1] in (sre_c.AT_BEGINNING, sre_c.AT_BEGINNING_STRING)
     e = bool(tree) and tree[-1][0] is sre_c.AT and tree[-1][1] in (sre_c.AT_END, sre_c.AT_END_STRING)
     return s, e
+
+
+# ---------------------------------------------------------------------------
+# first / last character sets (decided on the parse tree; used for side conditions of lemmas)
+# ---------------------------------------------------------------------------
+ANY = [(0, MAXCODE)]
+
+
+def _cls_ranges(items):
+    out, negate = [], False
+    for op, av in items:
+        if op is sre_c.NEGATE:
+            negate = True
+        elif op is sre_c.LITERAL:
+            out.append((av, av))
+        elif op is sre_c.RANGE:
+            out.append((av[0], av[1]))
+        elif op is sre_c.CATEGORY:
+            if av is sre_c.CATEGORY_DIGIT:
+                out.append((48, 57))
+            else:
+                return ANY
+        else:
+            return ANY
+    return ANY if negate else out
+
+
+def _fl(items, first=True):
+    """(ranges, nullable) of the first (or last) character of a sequence of nodes."""
+    seq = list(items)
+    if not first:
+        seq = seq[::-1]
+    ranges = []
+    for op, av in seq:
+        if op is sre_c.AT:
+            continue
+        r, nullable = _fl_node(op, av, first)
+        ranges += r
+        if not nullable:
+            return ranges, False
+    return ranges, True
+
+
+def _fl_node(op, av, first):
+    if op is sre_c.LITERAL:
+        return [(av, av)], False
+    if op in (sre_c.NOT_LITERAL, sre_c.ANY):
+        return ANY, False
+    if op is sre_c.IN:
+        return _cls_ranges(av), False
+    if op is sre_c.SUBPATTERN:
+        return _fl(av[3], first)
+    if op is sre_c.BRANCH:
+        rs, nl = [], False
+        for b in av[1]:
+            r, n = _fl(b, first)
+            rs += r
+            nl = nl or n
+        return rs, nl
+    if op in (sre_c.MAX_REPEAT, sre_c.MIN_REPEAT):
+        lo, hi, sub = av
+        r, n = _fl(sub, first)
+        return r, n or lo == 0
+    if op is sre_c.CATEGORY:
+        return ([(48, 57)] if av is sre_c.CATEGORY_DIGIT else ANY), False
+    return ANY, True
+
+
+def ends_exclude(pattern: str, excluded_ranges) -> bool:
+    """True iff every string of L(pattern) is non-empty and neither starts nor ends with a character
+    of ``excluded_ranges``."""
+    tree = sre_parse.parse(pattern)
+    for first in (True, False):
+        ranges, nullable = _fl(list(tree), first)
+        if nullable:
+            return False
+        for lo, hi in ranges:
+            for xlo, xhi in excluded_ranges:
+                if lo <= xhi and xlo <= hi:
+                    return False
+    return True
